@@ -145,13 +145,15 @@ func editResync(r *Run) {
 		if t.Bool(1, 2, "ragged") {
 			c.N1 -= 1 + t.Draw(c.S-1, "short")
 		}
-		switch t.Pick([]int{5, 5, 1, 1}, "edit") {
+		switch t.Pick([]int{5, 5, 1, 1, 1}, "edit") {
 		case 1:
 			c.Del = true
 		case 2:
 			c.Rename = 1
 		case 3:
 			c.Rename = 2
+		case 4:
+			c.Rename = 3
 		}
 		c.L = 1 + t.Draw(2*c.S+3, "L")
 		switch t.Pick([]int{3, 3, 1, 1}, "p-class") {
@@ -183,6 +185,14 @@ func editResync(r *Run) {
 	}
 	a := expandContent(akind, seed, c.N1, c.S)
 	b := expandContent(ckRandom, seed^0x5555, c.S+1+int(seed%3), c.S)
+	if c.Rename == 3 {
+		// b.dat holds the same content as a.dat (a slice-aligned copy, or
+		// a slice-aligned prefix of it); a.dat will be lost
+		b = append([]byte(nil), a...)
+		if len(a) > c.S && t.Bool(1, 2, "aligned-prefix") {
+			b = append([]byte(nil), a[:(1+t.Draw(len(a)/c.S, "prefix-slices"))*c.S]...)
+		}
+	}
 	d := simdisk.NewMem()
 	d.MkdirAll("/w/set")
 	d.Cwd = "/w/set"
@@ -206,6 +216,16 @@ func editResync(r *Run) {
 		desc = "a.dat's content under b.dat's name (a.dat kept)"
 		touched = nB
 		r.Probe("renamed-content")
+	case c.Rename == 3:
+		desc = "a.dat deleted while b.dat (intact) holds a slice-aligned copy of its content"
+		// slices of a.dat that b.dat does not hold are lost; a final
+		// partial slice of a.dat is held only if b.dat ends the same way
+		held := len(b) / c.S
+		if len(b) == len(a) {
+			held = nA
+		}
+		touched = nA - held
+		r.Probe("slices-held-by-intact-file")
 	default:
 		ts := touchedSlices(len(a), c.S, c.Del, c.P, c.L)
 		for _, x := range ts {
@@ -274,6 +294,8 @@ func editResync(r *Run) {
 		d.Put(w.Path(1), a)
 	case 2:
 		d.Put(w.Path(1), a)
+	case 3:
+		d.Remove(w.Path(0))
 	default:
 		d.Put(w.Path(0), edited)
 	}
